@@ -86,9 +86,32 @@ Definition c10_exec (nx : string -> Z -> option Z) (now : Z) (txns : list (list 
                         if existsb (created_by nx s') cmds then [] else [1005]
                       end) (schedules after).
 
+(* 1006 the converse of 1003: the promise of a schedule occurrence (it carries the schedule's id in the tag
+   resonate:schedule, which only the firing coroutine sets) is created ONLY by a transaction that also advances that
+   schedule from its occurrence - otherwise the schedule stays on the occurrence, fires it again and again and
+   skips the later ones *)
+Definition scheduled_for (c : command) : option string :=
+  let tags := match c with
+              | CreatePromise pc => Some (cp_tags pc)
+              | CreatePromiseAndTask pc _ => Some (cp_tags pc)
+              | _ => None end in
+  match tags with
+  | Some tg => match find (fun kv => String.eqb (fst kv) "resonate:schedule") tg with
+               | Some kv => if existsb (fun kv' => String.eqb (fst kv') "resonate:invocation") tg then Some (snd kv) else None
+               | None => None end
+  | None => None
+  end.
+
+Definition c10_creates (txns : list (list command)) : list Z :=
+  flat_map (fun t => flat_map (fun c => match scheduled_for c with
+                                        | Some sid =>
+                                          if existsb (fun c' => match c' with UpdateSchedule i (Some _) _ => String.eqb i sid | _ => false end) t
+                                          then [] else [1006]
+                                        | None => [] end) t) txns.
+
 Definition c10_chk (nx : string -> Z -> option Z) : checker := fun now d dir ob =>
   match dir with
-  | DExec _ => flat_map (fun o => match o with OExec txns _ snap => c10_exec nx now txns d snap | _ => [] end) ob
+  | DExec _ => flat_map (fun o => match o with OExec txns _ snap => (c10_exec nx now txns d snap ++ c10_creates txns)%list | _ => [] end) ob
   | _ => []
   end.
 
